@@ -241,6 +241,29 @@ def run_ops(ctx: _Ctx, ops: list) -> list:
                 code2 = t2.transform(ctx.tree(op["codes"][1]))
                 o["parts"] = [{"code": code1, "meta": _meta_of(t1), "meta_again": _meta_of(t1)},
                               {"code": code2, "meta": _meta_of(t2), "meta_again": _meta_of(t2)}]
+            elif kind == "xform2":
+                # two compiler instances used alternately through their own transformers (what transform_insn does per
+                # part: reset, transform, read the attributes) - the attributes are read after both have transformed
+                c2 = comps[op["inst2"] % len(comps)]
+                t1, t2 = c.transformer, c2.transformer
+                o["inst2"] = op["inst2"] % len(comps)
+                try:
+                    t1.reset()
+                    code1 = t1.transform(ctx.tree(op["codes"][0]))
+                    if t2 is t1:
+                        # (a minimised history may have lost the second instance: then the two are plain consecutive uses)
+                        p1 = {"code": code1, "meta": _meta_of(t1), "meta_again": _meta_of(t1)}
+                        t1.reset()
+                        code2 = t1.transform(ctx.tree(op["codes"][1]))
+                        o["parts"] = [p1, {"code": code2, "meta": _meta_of(t1), "meta_again": _meta_of(t1)}]
+                    else:
+                        t2.reset()
+                        code2 = t2.transform(ctx.tree(op["codes"][1]))
+                        o["parts"] = [{"code": code1, "meta": _meta_of(t1), "meta_again": _meta_of(t1)},
+                                      {"code": code2, "meta": _meta_of(t2), "meta_again": _meta_of(t2)}]
+                finally:
+                    t1.reset()
+                    t2.reset()
             elif kind == "add_sub":
                 c.add_sub_routine(op["name"], op["ret"], list(op["params"]), op["body"])
                 o["def"] = c.sub_routines[op["name"]].il_init(SubRoutineInitType.DEF)
